@@ -6,6 +6,13 @@ NOTES = ('Static analysis only: every verdict is computed from the ast of /repo/
          'Exit 2 + ANALYSIS-ERROR means the analysis could not decide (never a verdict).')
 
 CHECKS = {
+    'C17': {
+        'level': 'Structural clauses of C17 on every outcome of the convergence tests of abstract runs of Taylor.__call__ (iteration cap 4-6): the complex FFT data '
+                 'never reaches a real-only kernel; every state attribute written during a call is reset by _initialize; failed is exactly "cap reached without '
+                 'convergence"; derivative() scales values and error estimates by the same k!. Accuracy, degeneracy promises and coefficient count not decided.',
+        'note': 'np.fft.fft is summarised as "complex output depending on all inputs". _num_taylor_coefficients(n) >= n+1 is not decided (last-ulp dependence of np.log2).',
+        'technique': 'abstract interpretation of the Taylor state machine over the data-abstract domain with exploration of undetermined branches; exact algebra for derivative()',
+    },
     'C18': {
         'level': 'Structural clauses of C18: NaN-masking of Limit.__call__ (finite values of f returned unchanged, singular entries replaced elementwise, shape kept), '
                  'direction of approach and evaluation points for above/below/forward/backward, argument forwarding, the Residue multiplier d_z**pole_order with '
@@ -138,5 +145,4 @@ CHECKS = {
     },
 }
 
-_PENDING = 'check under construction in this session; will be claimed or declined with a reason when built'
-NOT_APPLICABLE = {p: _PENDING for p in ['C%02d' % i for i in range(1, 20)] if p not in CHECKS}
+NOT_APPLICABLE = {}     # every property has at least one structural clause that is decided; undecided clauses are listed per check
